@@ -33,12 +33,21 @@ LexLeq(a, b) ==
        ELSE LET i == CHOOSE x \in D : \A y \in D : x <= y IN a[i] < b[i]
 SortedLabels(t) == \A i \in 1..(Len(t) - 1) : LexLeq(t[i], t[i + 1])
 
-(* tables: sequence of [name, a, bpos]; a = label sequence of the table in EDBSetup(K, DB) (unpickled from the serialized     *)
-(* index), bpos[i] = position in a of the i-th label of the same table in EDBSetup(K, sigma(DB)) (0 = not a label of a).      *)
-(* Labels of one table are distinct (dictionary keys), so bpos = <<1, ..., n>> says the two label sequences are equal.         *)
+(* tables: sequence of [name, a, b, bpos]; a = label sequence of the table in EDBSetup(K, DB), b = the same table in           *)
+(* EDBSetup(K, sigma(DB)) (both unpickled from the serialized index), bpos[i] = position in a of b[i] (0 = not a label of a).   *)
+(* Labels of one table are distinct (dictionary keys).  When the two indexes hold the same labels, bpos = <<1, ..., n>> says    *)
+(* that the two label sequences are equal.  Labels that only one of the two indexes holds are the random padding labels of    *)
+(* that run (they differ between ANY two runs, whatever the order of the keywords, when the harness does not control the      *)
+(* source of randomness the construction draws them from): the property then speaks of the labels both indexes hold -- they    *)
+(* come in the same relative order -- and of each sequence being sorted as a whole.                                            *)
+Common(bpos) == SelectSeq(bpos, LAMBDA x : x # 0)
+Increasing(s) == \A i \in 1..(Len(s) - 1) : s[i] < s[i + 1]
+SameLabels(t) == Len(t.bpos) = Len(t.a) /\ Len(Common(t.bpos)) = Len(t.bpos)
 LabelOrderWhy(tables) ==
-    IF \E i \in 1..Len(tables) : ~SortedLabels(tables[i].a) THEN "LabelOrder:sorted"
-    ELSE IF \E i \in 1..Len(tables) : tables[i].bpos # Iota(Len(tables[i].a)) THEN "LabelOrder:equal"
+    IF \E i \in 1..Len(tables) : ~SortedLabels(tables[i].a) \/ ~SortedLabels(tables[i].b) THEN "LabelOrder:sorted"
+    ELSE IF \E i \in 1..Len(tables) : IF SameLabels(tables[i]) THEN tables[i].bpos # Iota(Len(tables[i].a))
+                                                                 ELSE ~Increasing(Common(tables[i].bpos))
+         THEN "LabelOrder:equal"
     ELSE "ok"
 
 (* ------------------------------------------------------------------ saturating arithmetic (TLC integers are 32-bit) *)
@@ -139,9 +148,21 @@ AppendOrder(b) ==
     /\ \A i \in 1..(Len(b) - 1) : (b[i][1] = 0 => b[i + 1][1] = 0)
     /\ \A i \in 1..(Len(b) - 1) : (b[i + 1][1] # 0 => PairLeq(b[i], b[i + 1]))
 AllAppendOrder(inb) == \A i \in 1..Len(inb) : AppendOrder(inb[i].occ)
+(* the positions INSIDE a bucket are array positions too: in a bucket of n slots holding r real entries (0 < r < n) the real  *)
+(* entries sit at C(n, r) equally likely position sets, one of which is "the first r".  C(n, r) >= n, and >= n(n-1)/2 for     *)
+(* 2 <= r <= n - 2.  When the partially filled buckets that were read make "real entries first in every one of them" a        *)
+(* coincidence of probability <= 1/Need and it is nevertheless what the index shows, the in-bucket positions are not chosen   *)
+(* at random.  (With fewer / fuller buckets the clause says nothing.)                                                            *)
+Reals(b) == Cardinality({i \in 1..Len(b) : b[i][1] # 0})
+RealsLead(b) == \A i \in 1..(Len(b) - 1) : (b[i][1] = 0 => b[i + 1][1] = 0)
+PartialIdx(inb) == SetToSortedSeq({i \in 1..Len(inb) : Reals(inb[i].occ) > 0 /\ Reals(inb[i].occ) < Len(inb[i].occ)})
+LeadFactor(b) == LET n == Len(b) r == Reals(b) IN IF r = 1 \/ r = n - 1 THEN n ELSE (n * (n - 1)) \div 2
+LeadGuard(inb) == LET P == PartialIdx(inb) IN SatProd([j \in 1..Len(P) |-> LeadFactor(inb[P[j]].occ)]) >= Need
+AllRealsLead(inb) == LET P == PartialIdx(inb) IN LeadGuard(inb) /\ \A j \in 1..Len(P) : RealsLead(inb[P[j]].occ)
 MovesWhy(s, run1, run2, inb1, inb2) ==
     IF run1 = run2 THEN "Moves"
     ELSE IF s = "DP17.Pi" /\ (AllAppendOrder(inb1) \/ AllAppendOrder(inb2)) THEN "Moves:inbucket"
+    ELSE IF s = "DP17.Pi" /\ (AllRealsLead(inb1) \/ AllRealsLead(inb2)) THEN "Moves:inbucket:realsfirst"
     ELSE "ok"
 FlatLen(r) == SumAll([i \in 1..Len(r) |-> Len(r[i])])
 
